@@ -12,7 +12,7 @@
   dict/mapped_file.cc / .h
       -> Create() on an existing file: resize in place?  Allocate: memset?
          OpenReadOnly: guarded against a mapping failure?
-  config/config_data.cc ConfigData::SaveToFile
+  config/config_data.cc ConfigData::SaveToFile, config/save_output_plugin.cc SaveOutputPlugin::ReviewLinkOutput
       -> written in place or to a temporary name followed by rename()
 
 into coq/Gen/BuildOrder.v (`facts : build_facts`).  Shapes that are not
@@ -195,6 +195,7 @@ def mapped_file_facts():
 
 
 def save_mode():
+    """how a compiled config reaches its final name: ConfigData::SaveToFile itself, or SaveOutputPlugin around it"""
     cd = read("config/config_data.cc")
     b = body_of(cd, r"\bConfigData::SaveToFile\s*\(")
     if b is None:
@@ -202,14 +203,31 @@ def save_mode():
     opens = re.findall(r"std::ofstream\s+\w+\s*\(\s*(\w+)\s*\.c_str\s*\(\s*\)", b)
     if len(opens) != 1:
         return "SaveUnknown", "ofstream openings: %r" % opens
-    if opens[0] == "file_path":
-        return "InPlace", "std::ofstream out(file_path.c_str())"
-    tmp = opens[0]
-    ren = re.search(r"\brename\s*\(\s*%s\s*,\s*file_path\b" % re.escape(tmp), b)
-    close = re.search(r"\.close\s*\(\s*\)|\}\s*std::error_code", b)
-    if ren and close and b.find("SaveToStream") < ren.start() and re.search(r"\b%s\s*\+=|\b%s\s*\(\s*file_path" % (tmp, tmp), b):
-        return "TempRename", "ofstream on %s, closed, then rename(%s, file_path)" % (tmp, tmp)
-    return "SaveUnknown", "temporary %s without the close/rename shape" % tmp
+    if opens[0] != "file_path":
+        tmp = opens[0]
+        ren = re.search(r"\brename\s*\(\s*%s\s*,\s*file_path\b" % re.escape(tmp), b)
+        close = re.search(r"\.close\s*\(\s*\)|\}\s*std::error_code", b)
+        if ren and close and b.find("SaveToStream") < ren.start() and re.search(r"\b%s\s*\+=|\b%s\s*\(\s*file_path" % (tmp, tmp), b):
+            return "TempRename", "SaveToFile: ofstream on %s, closed, then rename(%s, file_path)" % (tmp, tmp)
+        return "SaveUnknown", "SaveToFile: temporary %s without the close/rename shape" % tmp
+    # SaveToFile writes in place: the plugin that saves compiled configs may do the write-then-rename
+    sp = read("config/save_output_plugin.cc")
+    pb = body_of(sp, r"\bSaveOutputPlugin::ReviewLinkOutput\s*\(")
+    if pb is None:
+        return "SaveUnknown", "SaveOutputPlugin::ReviewLinkOutput not found"
+    saves = re.findall(r"SaveToFile\s*\(\s*(\w+)\s*\)", pb)
+    if len(saves) != 1:
+        return "SaveUnknown", "SaveOutputPlugin: SaveToFile calls: %r" % saves
+    if saves[0] == "file_path":
+        return "InPlace", "std::ofstream out(file_path.c_str()) and SaveOutputPlugin saves to file_path"
+    tmp = saves[0]
+    sv = pb.find("SaveToFile")
+    ren = re.search(r"\brename\s*\(\s*%s\s*,\s*file_path\b" % re.escape(tmp), pb)
+    derived = re.search(r"\b%s\s*\+=|\b%s\s*\(\s*file_path" % (tmp, tmp), pb)
+    early = re.search(r"if\s*\(\s*!\s*resource->data->SaveToFile\s*\(\s*%s\s*\)\s*\)\s*\{?\s*return\s+false" % re.escape(tmp), pb)
+    if ren and derived and early and sv < ren.start():
+        return "TempRename", "SaveOutputPlugin: SaveToFile(%s) (stream closed on return), then rename(%s, file_path)" % (tmp, tmp)
+    return "SaveUnknown", "SaveOutputPlugin: temporary %s without the save/rename shape" % tmp
 
 
 def coq_str(s):
